@@ -37,10 +37,9 @@ PARTIAL = ["global evaluator state other than the modelled channels: exploration
            "a modifier `if` inside parentheses is read as a block `if` (kept finding; the form is not generated)"]
 
 
-def fragments(r):
-    n = r.randint(0, 999)
+def all_fragments(n):
     f = lambda s: s.replace("#", str(n))
-    return r.choice([
+    return ([
         [f("zfa# = [1, \"s\"]"), f("zfb# = zfa#.first")],
         [f("zfc# = true"), f("zfu# = zfc# ? nil : \"s\""), f("if zfu#.nil?"), f("  zfd# = 1"), "else", f("  zfd# = zfu#.upcase"), "end"],
         [f("3.times do |zfi#|"), f("  zfj# = zfi#"), "end"],
@@ -54,6 +53,51 @@ def fragments(r):
         [f("zfa# = 1; zfb# = zfa#.to_s; zfg# = 2")],
         [f("zfl# = ->(zfx#) { return zfx#.to_s }"), f("[1].each do |zfy#| zfz# = zfy#.to_s; end")],
     ])
+
+
+def fragments(r):
+    return r.choice(all_fragments(r.randint(0, 999)))
+
+
+# small hosts whose method types are observable after the insertion point: every fragment is inserted at every listed
+# boundary (line index, indent) of each, so that no fragment / position pair depends on the random draw
+FIXED_HOSTS = [
+    (["hn = 3", "def hm(ha)", "  ha + 1", "end", "dbtp hm(hn)", "hs = hm(hn).to_s", "dbtp hs"],
+     [(1, 0), (2, 1), (4, 0), (5, 0), (6, 0)]),
+    (["class Hk", "  def initialize(hv)", "    @hv = hv", "  end", "  def hget", "    @hv", "  end", "end", "ho = Hk.new(1)", "dbtp ho.hget",
+      "def hlate", "  \"s\"", "end", "dbtp hlate"],
+     [(1, 1), (2, 2), (4, 1), (5, 2), (8, 0), (9, 0), (10, 0), (11, 1), (13, 0)]),
+    (["hq = [1, 2]", "def hsum(hl)", "  ht = 0", "  hl.each do |he|", "    ht = ht + he", "  end", "  ht", "end", "dbtp hsum(hq)",
+      "hz = hsum(hq) + 1", "dbtp hz"],
+     [(1, 0), (2, 1), (3, 1), (4, 2), (6, 1), (8, 0), (9, 0), (10, 0)]),
+]
+
+
+def part_every_fragment(ctx, part):
+    frs = all_fragments(7)
+    jobs = [(hi, fi, flags) for hi in range(len(FIXED_HOSTS)) for fi in range(len(frs)) for flags in ((), ("-i",))]
+    base = {}
+    for hi, (lines, _) in enumerate(FIXED_HOSTS):
+        for flags in ((), ("-i",)):
+            base[(hi, flags)] = run("\n".join(lines) + "\n", flags)
+
+    def one(job):
+        hi, fi, flags = job
+        sub = type(part)("sub")
+        lines, bounds = FIXED_HOSTS[hi]
+        a = base[(hi, flags)]
+        if a.timeout:
+            return sub
+        for k, indent in bounds:
+            compare(sub, "fixed-host:%d/fragment:%d" % (hi, fi), lines, k, frs[fi], indent, out_lines(a.out), flags)
+        return sub
+
+    for sub in C.pmap(one, jobs, par=6):
+        part.evaluations += sub.evaluations
+        part.agreed += sub.agreed
+        part.failures.extend(sub.failures)
+        part.nontrivial |= sub.nontrivial
+        part.count("fixed_host_insertions", sub.evaluations)
 
 
 def statement_starts(block, indent=0, lines=None, starts=None):
@@ -192,7 +236,7 @@ def part_append_program(ctx, part):
                                          {"program": hs + os_, "host": hs}))
 
 
-PARTS = [part_generated_hosts, part_corpus_hosts, part_append_program]
+PARTS = [part_generated_hosts, part_every_fragment, part_corpus_hosts, part_append_program]
 
 PAREN_IF = "def zq(a)\n  zfx = (a.to_s if a)\n  a\nend\ndbtp zq(1)\n"
 
